@@ -286,7 +286,8 @@ class Parser:
             return True
         if ttype == "right_bracket":
             self.__pop_expected_bracket(ttype, tvalue)
-            self.__curcommand.check_next_arg("stringlist", self.__curstringlist)
+            if not self.__curcommand.check_next_arg("stringlist", self.__curstringlist):
+                return False
             self.__cstate = self.__arguments
             return self.__check_command_completion()
         return False
@@ -350,7 +351,8 @@ class Parser:
                 raise ParseError(
                     "Expected test command, '{}' found instead".format(test.name)
                 )
-            self.__curcommand.check_next_arg("test", test)
+            if not self.__curcommand.check_next_arg("test", test):
+                return False
             self.__expected = test.get_expected_first()
             self.__curcommand = test
             return self.__check_command_completion(testsemicolon=False)
